@@ -56,6 +56,11 @@ def gen_model(rng, sw):
         else:
             spec["user_cons"].append({"name": "ucon0", "expr": [[r, rng.choice([1, -1, 2])] for r in rs],
                                       "lb": rng.choice([None, -5, 0]), "ub": rng.choice([5, 10, 100])})
+    if spec["user_cons"] and len(ids) >= 2 and rng.random() < 0.5:
+        # a second (and sometimes third) inequality constraint: loose enough never to bind
+        for n in range(rng.randint(1, 2)):
+            rs = rng.sample(ids, 2)
+            spec["user_cons"].append({"name": f"ucon{n + 1}", "expr": [[rs[0], 1], [rs[1], rng.choice([1, -1])]], "lb": -50000, "ub": 50000})
     return spec
 
 
@@ -190,7 +195,10 @@ class World:
         self.stats["probe:samples_checked"] += len(rows)
         # ---- validate() agrees ----
         if sampler is not None:
-            codes = list(sampler.validate(df.values))
+            try:
+                codes = list(sampler.validate(df.values))
+            except Exception as e:
+                raise Violation("validate_agrees", {"what": "validate() raises for the sampler's own samples", "exception": repr(e)[:300]}, culprit=op)
             if any(c != "v" for c in codes):
                 raise Violation("validate_agrees", {"what": "validate() flags samples the independent check accepts", "codes": codes[:8]}, culprit=op)
             if rows:
@@ -201,6 +209,23 @@ class World:
                 if c2 == "v":
                     raise Violation("validate_agrees", {"what": "validate() accepts a sample moved 5000 units out of bounds"}, culprit=op)
                 self.stats["probe:validate_perturbation_checked"] += 1
+                if len(rows) >= 2:
+                    # one bad row inside a batch: exactly that row is flagged.  In solver-variable space the perturbation is chosen
+                    # so that it breaks a user constraint when there is one (those are only visible there)
+                    batch = copy.deepcopy(rows)
+                    k = (op.get("perturb_col", 0) * 7 + 1) % len(batch)
+                    jj = j
+                    if not fluxes:
+                        ucols = [cols.index(r) for u in self.ref.user.values() if u["kind"] == "con" for r in u["coefs"] if r in cols]
+                        if ucols:
+                            jj = ucols[op.get("perturb_col", 0) % len(ucols)]
+                    batch[k][jj] += 5000.0
+                    codes2 = list(sampler.validate(np.array(batch)))
+                    wrong = [i for i, c in enumerate(codes2) if (c == "v") == (i == k)]
+                    if wrong:
+                        raise Violation("validate_agrees", {"what": "one sample of a batch was moved out of bounds: validate() must flag that one and "
+                                                                    "only that one", "bad_row": k, "codes": [str(c) for c in codes2][:10]}, culprit=op)
+                    self.stats["probe:validate_batch_with_one_bad_row"] += 1
         # ---- seed replay ----
         if op.get("seed") is not None and not faulted and not op.get("fault"):
             key = digest({k: v for k, v in op.items() if k not in ("perturb_col", "between")})
